@@ -258,7 +258,7 @@ class FixedSource:
                     return builtins_min(builtins_max(self.v, min), max)
 
                 def random_float(self, min, max):  # noqa: A002
-                    return min
+                    return float(min)
 
             cls._cls = _Fixed
         return cls._cls(v)
